@@ -23,7 +23,8 @@ ASSUMPTIONS = ["on these alphabets an inexact removal has an error far above 1e-
                "deviation is computed and only a deviation above the tolerance bound is a violation",
                "minimality is asserted for polynomial curves only (as stated)"]
 SEQS_ALL = (("clean", "clean"), ("clean0",))
-SEQS_SHALLOW = (("knot_clean", "knot_clean", "degree_clean", "degree_clean", "clean"), ("degree_clean", "knot_clean", "clean"))
+SEQS_SHALLOW = (("knot_clean", "knot_clean", "degree_clean", "degree_clean", "clean"), ("degree_clean", "knot_clean", "clean"),
+                ("knot_clean0", "degree_clean0", "clean0"), ("degree_clean0", "knot_clean0", "knot_clean0", "clean0"))
 
 
 def bounds(tier, seed):
@@ -85,6 +86,10 @@ def cost(case):
 def call_clean(c, name):
     if name == "clean0":
         return lib.outcome(c.clean, 0)  # an explicit zero tolerance: only exact removals may be accepted
+    if name == "knot_clean0":
+        return lib.outcome(lambda: c.knot_clean(tolerance=0))
+    if name == "degree_clean0":
+        return lib.outcome(c.degree_clean, 0)
     return lib.outcome(getattr(c, name))
 
 
@@ -138,7 +143,7 @@ def run_case(case, res):
             if not now.same(D0):
                 if poly_curve and now.is_polynomial():
                     dev = max(D0.sq_dev(now))
-                    bound = 0 if name == "clean0" else 2 * F(1, 10 ** 9) * max(F(1), U[-1] - U[0])
+                    bound = 0 if name.endswith("0") else 2 * F(1, 10 ** 9) * max(F(1), U[-1] - U[0])
                     if dev > bound:
                         res.violation("curve_changed", f"{where}: {name}() changed the curve (squared deviation {float(dev):.3e}); "
                                       f"knots {list(c.knotvector)} ctrlpoints {c.ctrlpoints}", **tags)
